@@ -154,7 +154,7 @@ def escapeCDATAVal (b : List Char) : Option (List Char) :=
 /-- the attribute value written by the `AttributeToken` branch -/
 def attrOut (v : List Char) : List Char :=
   if v.length < 2 || v.head? != some '"' || v.getLast? != some '"' then v
-  else escapeAttrVal (replEnt XmlTables.entities [] (v.drop 1).dropLast)
+  else escapeAttrVal (replEnt XmlTables.entities XmlTables.attrRev (v.drop 1).dropLast)
 
 /-! ## the loop -/
 
